@@ -34,7 +34,6 @@ h_ptrheap_decrease(void)
 
 	ptrheap_decrease(H, rc);
 
-	__CPROVER_assert(HP_ISMIN(H->elems, H->nelems, HP_E(H->elems, 0)), "the root is a least element");
 	VCOVER(use_rc && rc >= 3 && H_l_buf[0] == e);
 	VCOVER(!use_rc && rc >= 1 && H_l_buf[rc] == e);
 	VCOVER(use_rc && rc == 0 && n > 1);
